@@ -21,6 +21,12 @@ pub struct PatchArchiveBuilder {
     version: u8,
     /// Block size bits
     block_size_bits: u8,
+    /// Width of target content keys in bytes
+    file_key_size: u8,
+    /// Width of source encoding keys in bytes
+    old_key_size: u8,
+    /// Width of patch encoding keys in bytes
+    patch_key_size: u8,
     /// Optional encoding info for extended header
     encoding_info: Option<PatchArchiveEncodingInfo>,
     /// File entries to include (will be grouped into blocks)
@@ -33,6 +39,9 @@ impl PatchArchiveBuilder {
         Self {
             version: 2,
             block_size_bits: STANDARD_BLOCK_SIZE_BITS,
+            file_key_size: STANDARD_KEY_SIZE,
+            old_key_size: STANDARD_KEY_SIZE,
+            patch_key_size: STANDARD_KEY_SIZE,
             encoding_info: None,
             file_entries: Vec::new(),
         }
@@ -47,6 +56,17 @@ impl PatchArchiveBuilder {
     /// Set block size bits
     pub fn block_size_bits(mut self, bits: u8) -> Self {
         self.block_size_bits = bits;
+        self
+    }
+
+    /// Set the key widths in bytes (1-16 each, default 16)
+    ///
+    /// Keys are held zero-padded to 16 bytes; only the first `size` bytes of
+    /// each key are written, as the parser reads them.
+    pub fn key_sizes(mut self, file_key_size: u8, old_key_size: u8, patch_key_size: u8) -> Self {
+        self.file_key_size = file_key_size;
+        self.old_key_size = old_key_size;
+        self.patch_key_size = patch_key_size;
         self
     }
 
@@ -122,7 +142,7 @@ impl PatchArchiveBuilder {
 
     /// Write the patch archive to a writer
     pub fn write_to<W: Write>(&self, writer: &mut W) -> PatchArchiveResult<()> {
-        let file_key_size = STANDARD_KEY_SIZE;
+        let file_key_size = self.file_key_size;
 
         // Sort entries by target CKey for correct block ordering
         let mut sorted_entries = self.file_entries.clone();
@@ -130,7 +150,14 @@ impl PatchArchiveBuilder {
 
         // Group entries into blocks by block size
         let block_size = 1usize << self.block_size_bits;
-        let blocks = group_into_blocks(&sorted_entries, block_size, file_key_size);
+        let patch_record_size =
+            self.old_key_size as usize + 5 + self.patch_key_size as usize + 4 + 1;
+        let blocks = group_into_blocks(
+            &sorted_entries,
+            block_size,
+            file_key_size,
+            patch_record_size,
+        );
 
         // Compute flags
         let flags = if self.encoding_info.is_some() {
@@ -144,8 +171,8 @@ impl PatchArchiveBuilder {
             magic: *b"PA",
             version: self.version,
             file_key_size,
-            old_key_size: STANDARD_KEY_SIZE,
-            patch_key_size: STANDARD_KEY_SIZE,
+            old_key_size: self.old_key_size,
+            patch_key_size: self.patch_key_size,
             block_size_bits: self.block_size_bits,
             block_count: blocks.len() as u16,
             flags,
@@ -225,6 +252,7 @@ fn group_into_blocks(
     entries: &[PatchFileEntry],
     block_size: usize,
     file_key_size: u8,
+    patch_record_size: usize,
 ) -> Vec<Vec<PatchFileEntry>> {
     if entries.is_empty() {
         return vec![Vec::new()];
@@ -235,7 +263,7 @@ fn group_into_blocks(
     let mut current_size = 0usize;
 
     for entry in entries {
-        let entry_size = file_entry_size(entry, file_key_size);
+        let entry_size = file_entry_size(entry, file_key_size, patch_record_size);
 
         if !current_block.is_empty() && current_size + entry_size > block_size {
             blocks.push(std::mem::take(&mut current_block));
@@ -254,13 +282,12 @@ fn group_into_blocks(
 }
 
 /// Calculate the serialized size of a file entry
-fn file_entry_size(entry: &PatchFileEntry, file_key_size: u8) -> usize {
+fn file_entry_size(entry: &PatchFileEntry, file_key_size: u8, patch_record_size: usize) -> usize {
     // num_patches(1) + target_ckey + decoded_size(5)
     let base = 1 + file_key_size as usize + 5;
-    // Per patch: source_ekey(16) + source_decoded_size(5) + patch_ekey(16)
+    // Per patch: source_ekey + source_decoded_size(5) + patch_ekey
     //   + patch_size(4) + patch_index(1) = 42 with 16-byte keys
-    let patch_size = (16 + 5 + 16 + 4 + 1) * entry.patches.len();
-    base + patch_size
+    base + patch_record_size * entry.patches.len()
 }
 
 /// Serialize file entries for a single block (including 0x00 sentinel)
